@@ -170,6 +170,9 @@ def run_one(workdir, idx, rnd, mode, ct):
     mod = load_module(path, name)
     vg = ValGen(rnd, max_depth=2)
     mod.V[:] = [vg.value() for _ in range(nvals)]
+    if many:
+        # thousands of events: keep the values (and so the case term) small
+        mod.V[:] = [rnd.choice([1, "s", None, 2.5, True, b"x", (1, "a"), [1]]) for _ in range(nvals)]
     # sometimes the same source exists a second time under another file name (a vendored copy): its code objects
     # are EQUAL to the first module's, and its calls must still be attributed to its own functions
     twin = None
